@@ -44,6 +44,11 @@ stored in `s` under header slot `slot` on pages ≥ 2 and the other slot loses t
 * `damaged_new_header_shows_previous_state`: after a completed commit, any damage confined to the new header
   page that makes it fail verification gives back exactly the previous state (C12's fallback, in bytes);
 * `every_history_of_commits_stays_committed`: induction over any number of such commits from any committed file;
+* `copy_on_write_stores_the_whole_tree`: a writer that writes only the nodes on fresh pages leaves the whole tree
+  (rewritten and shared nodes) stored and changes nothing outside the fresh runs — the two premises above, for one
+  bucket's tree sharing any subset of its nodes with the previous state;
+* `allocator_model_delivers_the_premise`: the page-level guarantee of the allocator model (Layer A: a protocol-abiding
+  writer writes no page of the snapshot it started from) is exactly the byte-level premise `KeepsState`;
 * `fresh_file_is_committed`: the premises are satisfiable (a four-page file as `init_file` writes it).
 What these do NOT cover: that the real commit writes only pages the previous state does not own is the
 hypothesis `CommitOK.sep` — Layer A proves it of the allocator model (`reader_pages_never_written`, C03), and
@@ -52,6 +57,8 @@ the run evaluates it on the observed writes of every real commit against the dec
 -/
 import Jamm.Proofs.IoLemmas
 import Jamm.Proofs.CommitFileAtomic
+import Jamm.Proofs.CommitFileAlloc
+import Jamm.Proofs.CowTree
 import Jamm.Gen.Steps
 import Jamm.Gen.Layout
 import Jamm.Gen.HashOrder
@@ -202,6 +209,39 @@ theorem every_history_of_commits_stays_committed (pagesize : Nat)
     ∀ fuel, st'.view.weight ≤ fuel → openFile Gen.layout Gen.hashOrder pagesize fuel s' = some st' :=
   commits_stay_committed Gen.layout Gen.hashOrder pagesize layout_fit_for_commit.1 layout_fit_for_commit.2 hrec
     (Nat.le_trans (by decide) hrec) hslot h0 hc
+
+/-- A COPY-ON-WRITE WRITER ESTABLISHES BOTH PREMISES for a tree that shares any subset of its nodes with the previous
+state (`Proofs/CowTree.lean`): writing only the nodes on fresh pages (`writeFreshT`) leaves EVERY node of the tree —
+rewritten or shared — decodable from its own page (`StoredT`: what `header_write_switches_states` needs of the new
+state), provided the shared ones were stored before, every node fits its run and the runs of the tree are pairwise
+disjoint; and it changes no byte outside the runs of the fresh nodes (so with fresh runs disjoint from what the
+previous state owns, `KeepsState`: what `any_partial_commit_shows_previous_state` needs) -/
+theorem copy_on_write_stores_the_whole_tree (pagesize : Nat) (hhdr : Gen.layout.pageSize ≤ pagesize)
+    (fresh : Nat → Bool) (ov : Nat → Nat) (t : Tree Bytes LeafVal) (s : Src)
+    (hfit : nodesFit Gen.layout pagesize ov s.size t = true) (hdisj : (nodeRunsT ov t).Pairwise runsDisjoint)
+    (hsh : SharedT Gen.layout pagesize fresh ov s t) :
+    StoredT Gen.layout pagesize ov (writeFreshT Gen.layout pagesize fresh ov t s) t ∧
+    (writeFreshT Gen.layout pagesize fresh ov t s).size = s.size ∧
+    ∀ i, (∀ r ∈ freshRunsT fresh ov t, i < r.1 * pagesize ∨ (r.1 + r.2 + 1) * pagesize ≤ i) →
+      (writeFreshT Gen.layout pagesize fresh ov t s).get i = s.get i :=
+  ⟨writeFreshT_stored Gen.layout pagesize layout_fit_for_commit.1 hhdr fresh ov s.size t s rfl hfit hdisj hsh,
+   writeFreshT_size Gen.layout pagesize fresh ov t s,
+   fun i h => writeFreshT_get Gen.layout pagesize layout_fit_for_commit.1 fresh ov s.size t s i hfit h⟩
+
+/-- LAYER A DELIVERS THE PREMISE: in any state of the release-protocol model that satisfies its invariant (proved
+along every history: `Jamm.Props.C03.invariant_always`), for any protocol-abiding writer, a byte source that differs
+from the file only inside the pages that writer writes (the runs first fit hands out) keeps the bytes of every state
+whose pages are reachable in the current snapshot.  With `any_partial_commit_shows_previous_state`: whatever part of
+such a commit reaches the file, `open` shows the previous state.  (That the real allocator is this first fit is the
+call-by-call allocation tie of C10; that the real writes go only to allocated pages is `jmodel cow`.) -/
+theorem allocator_model_delivers_the_premise (pagesize : Nat) (hps : 0 < pagesize) (ov : Nat → Nat) (s s' : Src)
+    (slot : Nat) (hslot : slot < 2) (old : Opened) (sys : Sys) (w : WriterTx) (hi : sys.invB = true)
+    (hc : sys.clientOkB (.commitW w) = true)
+    (hreach : ∀ r ∈ old.runs ov, ∀ d, d ≤ r.2 → r.1 + d ∈ sys.cur.reach)
+    (hsz : s'.size = s.size)
+    (hsame : ∀ i, i / pagesize ∉ sys.writes w → s'.get i = s.get i) :
+    KeepsState pagesize ov s s' slot old :=
+  allocator_writes_keep_state pagesize hps ov s s' slot hslot old sys w hi hc hreach hsz hsame
 
 /-! ### the premises are satisfiable: a fresh four-page file -/
 
